@@ -8,7 +8,8 @@
 //
 // stdin : <seed> <feat> <nbody> <nmesh> <ntex> <flags> <reps>      flags: 1 = length ranges, 2 = hfield,
 //         4 = builtin meshes, 8 = start with usethread off, 16 = delayed actuators (history), 32 = muscle rig (length ranges of
-//         the muscles go through the pool under the default LRopt.mode), 64 = 2..4 extra mocap bodies
+//         the muscles go through the pool under the default LRopt.mode), 64 = 2..4 extra mocap bodies, 128 = extras rig (spatial tendons with site / sphere /
+//         cylinder / pulley wraps, tendon actuator and sensors, pair, exclude, numeric, text, tuple, camera, light)
 // stdout: CASE i / lines "CMP <what> <0|1> <detail>" and "STATE <what> <0|1> <detail>" / END <OK|DIFF|REJECTED|REJDIFF>
 //         (REJ <what> <0|1> <error>: the spec is rejected; the error text must be identical in every variant)
 #include <math.h>
@@ -56,6 +57,23 @@ static void cmp(const char* what, const mjModel* ref, const std::vector<unsigned
   while (off < b.size() && off < rb.size() && b[off] == rb[off]) off++;
   printf("CMP %s 0 sizes %zu/%zu first-byte %zu %s\n", what, rb.size(), b.size(), off, first_diff(ref, m).c_str());
   g_ndiff++;
+}
+
+// a deep copy has as many elements of every kind as its source (stated on the spec, before any compile)
+static void count_cmp(const char* what, const mjSpec* a, const mjSpec* b) {
+  static const int types[] = {mjOBJ_BODY, mjOBJ_JOINT, mjOBJ_GEOM, mjOBJ_SITE, mjOBJ_CAMERA, mjOBJ_LIGHT, mjOBJ_MESH, mjOBJ_HFIELD, mjOBJ_TEXTURE,
+                              mjOBJ_MATERIAL, mjOBJ_PAIR, mjOBJ_EXCLUDE, mjOBJ_EQUALITY, mjOBJ_TENDON, mjOBJ_ACTUATOR, mjOBJ_SENSOR, mjOBJ_NUMERIC,
+                              mjOBJ_TEXT, mjOBJ_TUPLE, mjOBJ_KEY};
+  std::string bad; int tot = 0;
+  for (int t : types) {
+    int na = 0, nb = 0;
+    for (mjsElement* e = mjs_firstElement(a, (mjtObj)t); e; e = mjs_nextElement(a, e)) na++;
+    for (mjsElement* e = mjs_firstElement(b, (mjtObj)t); e; e = mjs_nextElement(b, e)) nb++;
+    tot += na;
+    if (na != nb) bad += std::string(mju_type2Str(t)) + ":" + std::to_string(na) + "->" + std::to_string(nb) + " ";
+  }
+  printf("CNT %s %d %d %s\n", what, bad.empty() ? 1 : 0, tot, bad.c_str());
+  if (!bad.empty()) g_ndiff++;
 }
 
 static void sphere_band(std::vector<float>& v, std::vector<int>& f, int nlat, int nlon, double r, int closed) {
@@ -149,6 +167,43 @@ static mjSpec* make_spec(uint64_t seed, unsigned feat, int nbody, int nmesh, int
     mjs_setFloat(h->userdata, e.data(), (int)e.size());
     mjsGeom* g = mjs_addGeom(world, NULL); mjs_setName(g->element, "ghf");
     g->type = mjGEOM_HFIELD; mjs_setString(g->hfieldname, "hf"); g->pos[0] = 3;
+  }
+  if (flags & 128) {   // "extras" rig: the element kinds mjgen does not make -- spatial tendons wrapping sites, a SPHERE and a
+    // CYLINDER geom (with a side site) and a pulley, an actuator and sensors on them, a contact pair, an exclude, custom
+    // numeric / text / tuple fields, a camera and a light
+    mjsBody* e0 = mjs_addBody(world, NULL); mjs_setName(e0->element, "xe0"); e0->pos[0] = -8; e0->pos[2] = 1;
+    mjsJoint* j0 = mjs_addJoint(e0, NULL); mjs_setName(j0->element, "xej0"); j0->type = mjJNT_HINGE; j0->axis[0] = 0; j0->axis[1] = 1; j0->axis[2] = 0;
+    mjsGeom* gc = mjs_addGeom(e0, NULL); mjs_setName(gc->element, "xgcyl"); gc->type = mjGEOM_CYLINDER; gc->size[0] = 0.05; gc->size[1] = 0.1;
+    gc->quat[0] = 0.7071067811865476; gc->quat[1] = 0.7071067811865476; gc->quat[2] = 0; gc->quat[3] = 0; gc->contype = 0; gc->conaffinity = 0;
+    mjsBody* e1 = mjs_addBody(e0, NULL); mjs_setName(e1->element, "xe1"); e1->pos[0] = 0.4;
+    mjsJoint* j1 = mjs_addJoint(e1, NULL); mjs_setName(j1->element, "xej1"); j1->type = mjJNT_HINGE; j1->axis[0] = 0; j1->axis[1] = 1; j1->axis[2] = 0;
+    mjsGeom* gs = mjs_addGeom(e1, NULL); mjs_setName(gs->element, "xgsph"); gs->type = mjGEOM_SPHERE; gs->size[0] = 0.05; gs->contype = 0; gs->conaffinity = 0;
+    mjsGeom* gl = mjs_addGeom(e1, NULL); mjs_setName(gl->element, "xglink"); gl->type = mjGEOM_CAPSULE; gl->size[0] = 0.02;
+    gl->fromto[0] = 0; gl->fromto[1] = 0; gl->fromto[2] = 0; gl->fromto[3] = 0.3; gl->fromto[4] = 0; gl->fromto[5] = 0; gl->contype = 0; gl->conaffinity = 0;
+    struct { const char* n; mjsBody* b; double x, y, z; } st[5] = {{"xsa", world, -8.4, 0, 1.2}, {"xsb", e0, 0.2, 0, 0.15}, {"xsc", e1, 0.3, 0, 0.1},
+                                                                     {"xside0", e0, 0, 0, 0.2}, {"xsd", e1, 0.15, 0, -0.12}};
+    for (auto& q : st) { mjsSite* si = mjs_addSite(q.b, NULL); mjs_setName(si->element, q.n); si->pos[0] = q.x; si->pos[1] = q.y; si->pos[2] = q.z; }
+    mjsTendon* t0 = mjs_addTendon(s, NULL); mjs_setName(t0->element, "xt0");
+    mjs_wrapSite(t0, "xsa"); mjs_wrapGeom(t0, "xgcyl", mjg_chance(&R, 0.5) ? "xside0" : ""); mjs_wrapSite(t0, "xsb");
+    mjsTendon* t1 = mjs_addTendon(s, NULL); mjs_setName(t1->element, "xt1");
+    mjs_wrapSite(t1, "xsb"); mjs_wrapGeom(t1, "xgsph", ""); mjs_wrapSite(t1, "xsc");
+    mjsTendon* t2 = mjs_addTendon(s, NULL); mjs_setName(t2->element, "xt2");
+    mjs_wrapSite(t2, "xsa"); mjs_wrapSite(t2, "xsb"); mjs_wrapPulley(t2, 2); mjs_wrapSite(t2, "xsb"); mjs_wrapSite(t2, "xsd");
+    if (mjg_chance(&R, 0.5)) { t1->limited = mjLIMITED_TRUE; t1->range[0] = 0; t1->range[1] = 2; }
+    mjsActuator* a = mjs_addActuator(s, NULL); mjs_setName(a->element, "xat0"); a->trntype = mjTRN_TENDON; mjs_setString(a->target, "xt0");
+    const char* tn[3] = {"xt0", "xt1", "xt2"};
+    for (int k = 0; k < 3; k++) {
+      mjsSensor* sn = mjs_addSensor(s); char nb[32]; snprintf(nb, sizeof(nb), "xsn%d", k); mjs_setName(sn->element, nb);
+      sn->type = k == 2 ? mjSENS_TENDONVEL : mjSENS_TENDONPOS; sn->objtype = mjOBJ_TENDON; mjs_setString(sn->objname, tn[k]);
+    }
+    mjsPair* pr = mjs_addPair(s, NULL); mjs_setName(pr->element, "xpair"); mjs_setString(pr->geomname1, "xgcyl"); mjs_setString(pr->geomname2, "xgsph");
+    mjsExclude* ex = mjs_addExclude(s); mjs_setName(ex->element, "xexcl"); mjs_setString(ex->bodyname1, "xe0"); mjs_setString(ex->bodyname2, "xe1");
+    mjsNumeric* nu = mjs_addNumeric(s); mjs_setName(nu->element, "xnum"); double nd[3] = {1.5, -2, mjg_u(&R)}; mjs_setDouble(nu->data, nd, 3); nu->size = 5;
+    mjsText* tx = mjs_addText(s); mjs_setName(tx->element, "xtext"); mjs_setString(tx->data, "verif extras");
+    mjsTuple* tu = mjs_addTuple(s); mjs_setName(tu->element, "xtuple");
+    { int ot[2] = {mjOBJ_BODY, mjOBJ_BODY}; double op[2] = {0.5, 1.5}; mjs_setInt(tu->objtype, ot, 2); mjs_setStringVec(tu->objname, "xe0 xe1"); mjs_setDouble(tu->objprm, op, 2); }
+    mjsCamera* cm = mjs_addCamera(e0, NULL); mjs_setName(cm->element, "xcam"); cm->pos[2] = 0.5;
+    mjsLight* li = mjs_addLight(e1, NULL); mjs_setName(li->element, "xlight"); li->pos[2] = 1;
   }
   if (flags & 64) {   // several mocap bodies (mocap_pos has stride 3, mocap_quat stride 4: the index spaces differ from the
     // second body on), with non-default poses, some welded to tree bodies
@@ -278,8 +333,17 @@ static void run_case(uint64_t seed, unsigned feat, int nbody, int nmesh, int nte
   mjModel* m2 = mj_compile(s, NULL);
   cmp("twice", m1, ref, m2);
   if (m2) mj_deleteModel(m2);
+  // a deep copy made BEFORE the spec was ever compiled (a second, identically generated spec)
+  {
+    mjSpec* sf = make_spec(seed, feat, nbody, nmesh, ntex, flags);
+    mjSpec* sfc = mj_copySpec(sf);
+    if (!sfc) { printf("CMP copyfresh 0 mj_copySpec-failed\n"); g_ndiff++; }
+    else { count_cmp("copyfresh", sf, sfc); mjModel* mf = mj_compile(sfc, NULL); cmp("copyfresh", m1, ref, mf); if (mf) mj_deleteModel(mf); mj_deleteSpec(sfc); }
+    mj_deleteSpec(sf);
+  }
   // compile a deep copy
   mjSpec* s2 = mj_copySpec(s);
+  if (s2) count_cmp("copyspec", s, s2);
   if (!s2) { printf("CMP copyspec 0 mj_copySpec-failed\n"); g_ndiff++; }
   else {
     mjModel* m3 = mj_compile(s2, NULL);
